@@ -627,7 +627,7 @@ def spec(tier, seed):
         sh = {"H": shapes.shapes_H_upto(2, 2), "D": shapes.shapes_D_upto(2, 1) + shapes.shapes_D(1, 2), "S": shapes.shapes_S_upto(3)}
         small = {"H": set(shapes.shapes_H_upto(2, 1) + shapes.shapes_H(1, 2)), "D": set(shapes.shapes_D_upto(1, 1)), "S": set(shapes.shapes_S_upto(2))}
     else:
-        sh = {"H": shapes.shapes_H_upto(3, 2) + shapes.shapes_H(2, 3)[::2], "D": shapes.shapes_D_upto(2, 1) + shapes.shapes_D(1, 2) + shapes.shapes_D(2, 2)[::4], "S": shapes.shapes_S_upto(3) + shapes.shapes_S(4, 0)[::3]}
+        sh = {"H": shapes.shapes_H_upto(3, 2) + shapes.shapes_H(2, 3), "D": shapes.shapes_D_upto(2, 1) + shapes.shapes_D(1, 2) + shapes.shapes_D(2, 2)[::2], "S": shapes.shapes_S_upto(3) + shapes.shapes_S(4, 0)[::3]}
         small = {"H": set(shapes.shapes_H_upto(2, 1) + shapes.shapes_H(1, 2) + shapes.shapes_H(2, 2)[::2]), "D": set(shapes.shapes_D_upto(1, 1) + shapes.shapes_D(2, 1)[::3]), "S": set(shapes.shapes_S_upto(2) + shapes.shapes_S(3, 0)[:3])}
     for cls in "HDS":
         for s in sh[cls]:
